@@ -37,6 +37,8 @@ func genScript(t *rapid.T, g scriptGenOpts) Script {
 	}
 	s.Deadline = rapid.IntRange(0, 3).Draw(t, "deadline") == 0
 	s.CtxAPI = rapid.IntRange(0, 2).Draw(t, "ctxapi") == 0
+	s.OptReuse = rapid.IntRange(0, 3).Draw(t, "optreuse") == 0
+	s.RegAllBidi = rapid.IntRange(0, 5).Draw(t, "regallbidi") == 0
 	s.Chunked = rapid.IntRange(0, 4).Draw(t, "chunked") == 0
 	s.RespWithErr = rapid.IntRange(0, 2).Draw(t, "respwitherr") == 0
 	if rapid.IntRange(0, 7).Draw(t, "spoof") == 0 {
